@@ -474,7 +474,8 @@ where
             break;
         }
     }
-    if tie && !floor.is_odd() {
+    // if the boundary still has digits, bytes is a proper prefix of it: below the boundary
+    if tie && (boundary != I::ZERO || !floor.is_odd()) {
         return Some(floor);
     }
     let next_up = floor.checked_add(one)?;
